@@ -885,7 +885,14 @@ func checkC17(env *engine.Env, ci any) engine.Outcome {
 		if !pOK {
 			// a sample value the parser does not take: the path is judged on the path sets only
 			out.Nontrivial = false
-			_ = perr
+			// ... unless the very same setting is taken outside the override block: then it is the key path the parser
+			// refuses, which the schema allows
+			if len(c.Path) > 2 && c.Path[0] == "overrides" && sp[key] {
+				twin := c17Doc(env, C17Case{Part: "path", Path: c.Path[2:], Kind: c.Kind})
+				if tOK, _, _, _ := judge(twin); tOK {
+					viol("schema:path-refused-by-parser:"+pathKey(c.Path), "the schema allows the key path %s and the parser takes the same setting at %s, but refuses it inside the override block: %v\n%s", key, strings.Join(c.Path[2:], "."), perr, fixture.Doc(d).YAML())
+				}
+			}
 		}
 		if !sp[key] {
 			viol("schema:path-missing-in-schema:"+pathKey(c.Path), "the parser defines key path %s, the schema does not allow it", key)
